@@ -2,16 +2,16 @@
 # usage: tools/seed_recheck.sh <seed-dir> [check ids...]  - re-run check(s) for an already confirmed seeded change and record it
 d=$1; shift; id=$(basename $d); prop=${id%%-*}
 [ $# -eq 0 ] && set -- $prop
-out=$(SEEDS="${SEEDS:-12648430 1}" /verif/tools/seed_run.sh $d "$@" 2>&1 | grep -v "binary file")
-echo "$out" | cut -c1-300
-python3 - "$id" <<PY
+SEEDS="${SEEDS:-12648430 1}" /verif/tools/seed_run.sh $d "$@" 2>&1 | grep -v "binary file" > /tmp/seedrun-last.txt
+cut -c1-300 /tmp/seedrun-last.txt
+python3 - "$id" <<'PY'
 import json,sys
 sid=sys.argv[1]
-conf=None
+conf=''
 for l in open('/tmp/seed-out/results.jsonl'):
     try: r=json.loads(l)
     except ValueError: continue
-    if r['id']==sid: conf=r['confirm']
-rec={'id':sid,'confirm':conf or '','check':open('/dev/stdin').read() if False else """$out"""[-1500:]}
+    if r['id']==sid and r.get('confirm'): conf=r['confirm']
+rec={'id':sid,'confirm':conf,'check':open('/tmp/seedrun-last.txt').read()[-1500:]}
 open('/tmp/seed-out/results.jsonl','a').write(json.dumps(rec)+'\n')
 PY
